@@ -87,6 +87,33 @@ let cmd_c03 toks =
      pts npts r);
   Buffer.contents buf
 
+(* ---- C16: priors: prior n (pos kind a b x g)*  with g = scipy's gamma(a) / beta(a,b) for that term ---- *)
+let cmd_prior toks =
+  let (n, r) = pop_int toks in
+  let pop_term1 r =
+    let (pos, r) = pop r in let (kind, r) = pop r in let (a, r) = pop_fl r in let (b, r) = pop_fl r in
+    let (x, r) = pop_fl r in let (g, r) = pop_fl r in
+    let pr = match kind with
+      | "uniform" -> PrUniform (a, b) | "gaussian" -> PrGaussian (a, b) | "exponential" -> PrExponential a
+      | "gamma" -> PrGamma (a, b) | "beta" -> PrBeta (a, b) | "log-uniform" -> PrLogUniform (a, b)
+      | "log-gaussian" -> PrLogGaussian (a, b) | k -> raise (Parse ("prior kind " ^ k)) in
+    (((pos = "1", pr), x), g), r in
+  let (terms, _) = pop_n pop_term1 n r in
+  (* each term carries its own special-function value: evaluate term by term, sum as check_prior does *)
+  let pi = 4.0 *. atan 1.0 in
+  let singles = List.map (fun (((pos, pr), x), g) ->
+      match prior_eval fl pi (fun _ -> g) (fun _ _ -> g) pr x with
+      | Reject -> "REJECT" | Raise -> "RAISE" | Val v -> hx v) terms in
+  (* whole vector: G/B differ per term, so fold by hand with the model's check_prior on singletons *)
+  let rec go lp = function
+    | [] -> (match log_prior fl pi (fun _ -> 0.0) (fun _ _ -> 0.0) [] with _ -> if Float.is_finite lp then hx lp else "-inf")
+    | (((pos, pr), x), g) :: rest ->
+      (match check_prior fl pi (fun _ -> g) (fun _ _ -> g) [((pos, pr), x)] lp with
+       | Raise -> "RAISE"
+       | Reject -> (match go infinity rest with "RAISE" -> "RAISE" | _ -> "-inf")
+       | Val v -> go v rest) in
+  String.concat " " singles ^ " | " ^ go 0.0 terms
+
 let () =
   try
     while true do
@@ -98,6 +125,7 @@ let () =
           | "queue" -> cmd_queue toks
           | "prop" -> cmd_prop toks
           | "c03" -> cmd_c03 toks
+          | "prior" -> cmd_prior toks
           | "iface" -> cmd_iface toks
           | _ -> "ERR unknown command " ^ cmd)
           with e -> "ERR " ^ Printexc.to_string e in
